@@ -120,7 +120,7 @@ def install_c01(ctx: Any) -> None:
             if len(new) != len(old):
                 return f"rank {r}: row count changed during alignment"
             for o, n in zip(old, new):
-                if o - n != self.min_ts:
+                if n != o - self.min_ts and o - n != self.min_ts:      # float columns (rounding disabled): n is the rounded difference
                     return f"rank {r}: ts {o} became {n}; shift {o - n} differs from min_ts {self.min_ts}"
             if len(new):
                 mins.append(min(new))
